@@ -117,6 +117,17 @@ theorem reason_not_create (mem : Mem) (e : Event) (h : e.oldAbsent = false) :
   cases e.deleted <;> cases e.marked <;> cases e.blocked <;> cases e.diffNonEmpty <;>
     cases (mem.noticed && !mem.fullyHandled) <;> simp
 
+/-- An object still to be resumed (listed, not yet fully handled) never yields the no-op cause, so the
+    no-op purge of leftover records never removes a resume handler's finished record prematurely. -/
+theorem reason_not_noop_of_initial (mem : Mem) (e : Event)
+    (h : (mem.noticed && !mem.fullyHandled) = true) :
+    ((cfgOf decls mem e).reason == "noop") = false := by
+  show (reasonStr (C05.detect (inOf mem e)).reason == "noop") = false
+  unfold C05.detect C05.detectReason inOf
+  simp only [h]
+  cases e.deleted <;> cases e.marked <;> cases e.blocked <;> cases e.oldAbsent <;>
+    cases e.diffNonEmpty <;> simp [reasonStr]
+
 theorem stable_selected (decls : List Decl) (d : Decl) (hd : d ∈ decls)
     (hini : d.gate.initial = true) (hreason : d.gate.reason = none)
     (mem : Mem) (hn : mem.noticed = true) (hf : mem.fullyHandled = false) (e : Event) (hs : Stable d e) :
@@ -199,7 +210,10 @@ theorem resume_never_again_partial (decls : List Decl) (d : Decl) (hd : d ∈ de
                 exact finished_persists_selected (cfgOf decls mem e) P e.now e.now1 e.exec hsub hu
                   d.id r hsel hP hfin hr hc'
               · have hr' : handlerReasons.contains (cfgOf decls mem e).reason = false := by simpa using hr
+                have hnn : ((cfgOf decls mem e).reason == "noop") = false :=
+                  reason_not_noop_of_initial mem e (by simp [hn, hf'])
                 rw [cycle_not_handler_reason _ P e.now e.now1 e.exec hr']
+                simp only [hnn, Bool.false_eq_true, if_false]
                 exact ⟨r, hP, hfin⟩
 
 /-- After the step in which a resume handler reached a final outcome, it is never invoked again for
